@@ -151,6 +151,56 @@ def check_canon(case):
     return Outcome(nontrivial=bool(centre_maps(s)), outcome=f"bij{int(bij)}asym{int(bool(asym_exact))}{int(bool(asym_wl))}", fails=fails, transitions=n)
 
 
+REAGENTS = ["O", "[Na+]", "CCO", "[OH-]"]
+
+
+def expand_like_user(rsmi):
+    """the harness' own reading of a partially mapped reaction: unmapped reactant atoms are atoms of the reaction
+    (they get fresh, globally unused numbers); unmapped product atoms are not tracked"""
+    r, p = er.split(rsmi)
+    mr, mp = er.mol(r), er.mol(p)
+    used = {a.GetAtomMapNum() for m in (mr, mp) for a in m.GetAtoms()}
+    nxt = max(used) + 1000
+    for a in mr.GetAtoms():
+        if a.GetAtomMapNum() == 0:
+            a.SetAtomMapNum(nxt)
+            nxt += 1
+    # drop unmapped product atoms (the canonicaliser documents that it works on mapped atoms)
+    return Chem.MolToSmiles(mr, canonical=False) + ">>" + p
+
+
+def check_canon_partial(case):
+    """partially mapped inputs: an unmapped reagent on the reactant side"""
+    from synkit.Chem.Reaction.canon_rsmi import CanonRSMI
+
+    rid, s = case
+    if rd_its(s) is None:
+        return Outcome(skipped="unmapped_or_duplicate_maps")
+    fails = []
+    n = 0
+    vs = the_variants(s)[:6]
+    for k, (tag, v) in enumerate(vs):
+        r, p = er.split(v)
+        for front in (True, False):
+            reagent = REAGENTS[(k + front) % len(REAGENTS)]
+            vin = (reagent + "." + r if front else r + "." + reagent) + ">>" + p
+            base = rd_its(expand_like_user(vin))
+            if base is None:
+                continue
+            for backend in ("wl", "nauty"):
+                try:
+                    out = CanonRSMI(backend=backend).canonicalise(vin).canonical_rsmi
+                except Exception as e:
+                    fails.append(Fail("canon_partial_exception", f"{backend} {tag}: {type(e).__name__}: {e}", "a canonical reaction", key_extra=backend))
+                    return Outcome(nontrivial=True, outcome="partial", fails=fails, transitions=n)
+                n += 1
+                g = rd_its(out) if out and "None" not in out else None
+                if g is None or not rd_equiv(base, g):
+                    fails.append(Fail("canon_partial_not_equivalent", f"{backend} {tag} reagent {reagent} {'first' if front else 'last'}: {out}", f"atom-map-equivalent to {vin}", key_extra=backend))
+                    return Outcome(nontrivial=True, outcome="partial", fails=fails, transitions=n)
+    return Outcome(nontrivial=True, outcome="partial", fails=fails, transitions=n)
+
+
 def check_std(case):
     from synkit.Chem.Reaction.standardize import Standardize
 
@@ -282,6 +332,7 @@ def subchecks(tier, seed):
     TIER[0], SEED[0] = tier, seed
     return [
         Sub("canon_rsmi", gen, check_canon, key=lambda c: c[0], rule=RULE[tier]),
+        Sub("canon_rsmi_partial", gen, check_canon_partial, key=lambda c: c[0], rule="an unmapped reagent added to the reactant side (first / last), 6 renumbering variants each"),
         Sub("standardize", gen, check_std, key=lambda c: c[0], rule=RULE[tier]),
         Sub("aam_validator", gen, check_validator, key=lambda c: c[0], rule=RULE[tier]),
         Sub("balance", gen, check_balance, key=lambda c: c[0], rule=RULE[tier]),
